@@ -32,6 +32,7 @@ const (
 	Field StepKind = iota // .Name
 	Index                 // [I]
 	Call                  // .Name()
+	Func                  // Name(root): a registered package-level read-only helper applied to the root value (first step only)
 )
 
 // Step is one step of an action path.
@@ -254,10 +255,25 @@ func exprOf(steps []Step) string {
 			b.WriteString("[" + strconv.Itoa(s.I) + "]")
 		case Call:
 			b.WriteString("." + s.Name + "()")
+		case Func:
+			b.WriteString(" passed to " + s.Name)
 		}
 	}
 	return b.String()
 }
+
+// Helper is a package-level read-only function of the library that takes the root value (a packet or message):
+// Applies says whether it takes this value, Call renders its results into one value.
+type Helper struct {
+	Name    string // e.g. "dhcpv6.ExtractMAC(v)"
+	Applies func(v any) bool
+	Call    func(v any) any
+}
+
+var helpers []Helper
+
+// RegisterHelper adds h to the actions Discover returns for root values it applies to (call before any Discover).
+func RegisterHelper(h Helper) { helpers = append(helpers, h) }
 
 type walker struct {
 	cfg  Config
@@ -420,6 +436,12 @@ func (w *walker) walk(cur reflect.Value, steps []Step, calls, nonCall int, via s
 func Discover(v any, cfg Config) []Action {
 	w := &walker{cfg: cfg, seen: map[string]bool{}}
 	w.walk(root(v), nil, 0, 0, "", false, false)
+	for _, h := range helpers {
+		if h.Applies(v) {
+			st := []Step{{Kind: Func, Name: h.Name}}
+			w.out = append(w.out, Action{Steps: st, Expr: exprOf(st), Method: h.Name, Calls: 1})
+		}
+	}
 	return w.out
 }
 
@@ -467,6 +489,13 @@ func Exec(v any, a Action) (r Result) {
 	cur := root(v)
 	for k, s := range a.Steps {
 		switch s.Kind {
+		case Func:
+			for _, h := range helpers {
+				if h.Name == s.Name {
+					return Result{Text: Render(reflect.ValueOf(h.Call(v)))}
+				}
+			}
+			return Result{Text: "<unreachable: helper " + s.Name + " is not registered>"}
 		case Field:
 			u, ok := under(cur)
 			if !ok || u.Kind() != reflect.Struct {
